@@ -145,16 +145,18 @@ CHECKS = {
         design_ref="§6 C08, §10"),
     "C11": dict(
         level="proof",
-        text="21 theorems, none partial, proved for all states and all schedules (any number of forward/backward cursors "
+        text="27 theorems, none partial, proved for all states and all schedules (any number of forward/backward cursors "
              "interleaved with append/extend/insert_before/insert_after/remove/move): well-formedness invariant preserved; "
              "every edit refines the plain-list operation (len, g[i], membership, list, reversed agree); a cursor yields only "
              "live nodes, terminates within len+1 steps once edits stop, never raises; untouched nodes are yielded exactly "
              "once in graph order; inserted-after yielded / inserted-before skipped; removed or moved current node resumes "
-             "at its original successor; cursors are independent. Tie: the model (live sequence + frozen tombstone links, "
+             "at its original successor; cursors are independent; RecursiveGraphIterator (stack of lazily entered cursors over a "
+             "forest, enter/exit callbacks, forward and reverse) never raises, yields only nodes of the frame's graph, "
+             "terminates, and yields untouched nodes exactly once in pre-order under every interleaving with edits. Tie: the model (live sequence + frozen tombstone links, "
              "generator-resume semantics) is replayed inside Coq against DoublyLinkedSet, ir.Graph and ir.Function on random "
              "schedules and exhaustive small scopes; the oracle states the property against a plain-list spec.",
-        note=TRUST + "Not modelled in Coq: RecursiveGraphIterator (oracle only); Graph.sort's order enters as a permutation "
-             "(C12). CPython generator semantics are the model's cursor rules.",
+        note=TRUST + "Graph.sort's order enters as a permutation (C12); the iterator's `recursive` predicate is not modelled; "
+             "CPython generator semantics are the model's cursor rules.",
         technique="Coq proof over tombstone-list model; vm_compute replay of schedules against DoublyLinkedSet/Graph",
         design_ref="§6 C11, §10"),
     "C14": dict(
@@ -172,18 +174,20 @@ CHECKS = {
         design_ref="§6 C14, §10"),
     "C15": dict(
         level="proof",
-        text="Proved in full: NameAuthority freshness for every add/remove/re-add history with arbitrary explicit names "
-             "(generated names never collide, explicit names kept, fuel suffices — via injectivity of decimal printing), and "
-             "rename_values all-or-nothing for every assignment (swaps, cycles, initializers). NameFixPass (model of the code "
-             "after fix 25cf9b5): fuel suffices; the only possible exception is the initializer guard and models without "
-             "initializers never raise (C15_fix_total_partial); a traversal-met uniquely named value keeps its name "
-             "(C15_fix_keeps_unique_partial); per-value post-condition (C15_fix_post_partial); the unsorted outer-capture "
-             "refutation (C15_fix_post_unsorted_refuted, a known finding). Tie: histories on real ir.Graph objects, "
-             "generated models with colliding names across nested scopes and functions, random rename assignments — "
-             "all compared inside Coq.",
-        note=TRUST + "NameFixPass theorems are partial (assembly into per-graph distinctness, node names, values reachable only "
-             "through initializer dicts are covered by correspondence + oracle, not by theorem).",
-        technique="Coq proof (name authority, rename_values full; NameFix partial) + vm_compute correspondence",
+        text="19 theorems, none partial. NameAuthority: generated names never collide with any name registered or generated "
+             "before, for every add/remove/re-add history with arbitrary explicit names (fuel suffices via injectivity of "
+             "decimal printing); explicit names are kept. rename_values: all-or-nothing for every assignment (swaps, cycles, "
+             "initializers). NameFixPass (model of the code after fix 25cf9b5): the whole pass never raises (C15_fix_total, "
+             "under clause I5 of the C01 invariant and closed_run); after it every value/node has a non-empty name, value "
+             "names are pairwise distinct per graph and from visible enclosing values, node names distinct per graph, "
+             "initializers keyed by current names (C15_fix_post, under well_scoped); already-unique value and node names are "
+             "kept (C15_fix_keeps_unique*); nothing but names changes (C15_fix_only_names over an opaque payload). Each "
+             "hypothesis is shown necessary by a _refuted witness reproduced on the real code (known findings on ill-scoped "
+             "models). Tie: histories on real ir.Graph objects, generated models with colliding names across nested scopes "
+             "and functions, random rename assignments — all compared inside Coq.",
+        note=TRUST + "Hypotheses well_scoped / closed_run / disjoint function runs exclude models that are not valid ONNX scoping "
+             "(function body reading a main-graph value; subgraph reading a value produced later).",
+        technique="Coq proof (name authority, NameFixPass, rename_values) + vm_compute correspondence",
         design_ref="§6 C15, §10"),
     "C16": dict(
         level="proof",
